@@ -186,6 +186,35 @@ def h_func(cx, T, N, pa, funcs):
         unchanged(cx, a, sa, fn)
 
 
+def h_func_nan(cx, T, N, pa, funcs):
+    """domain-restricted functions with floating-point semantics (job option nan_domain): outside its domain the function is not a number, and the
+    timeslice must then be undefined - the symbolic values decide per entry, one path per in/out pattern"""
+    import pyerrors as pe
+    lib.sym_env(cx, *MODS)
+    a = mk_corr(cx, 'a', T, N, pa)
+    sa = snapshot(a)
+    for fn in funcs:
+        with np.errstate(all='ignore'):
+            f = {'pow_half': lambda x: x ** 0.5}.get(fn) or (lambda x, fn=fn: getattr(np, fn)(x))
+            try:
+                res = f(a)
+            except ValueError as e:
+                res = e
+            expect = []
+            for t in range(T):
+                if entry(a, t) is None:
+                    expect.append(None)
+                    continue
+                e = _apply_entrywise(lambda u, _: f(u), entry(a, t), None)
+                isnan = [isinstance(x.value, (float, np.floating)) and x.value != x.value for x in e.ravel()]
+                expect.append(None if any(isnan) else e)
+        if isinstance(res, ValueError):
+            cx.expect(all(e is None for e in expect), fn + ':raises only when no timeslice stays defined', str(res))
+        else:
+            check_corr(cx, res, T, N, expect, fn)
+        unchanged(cx, a, sa, fn)
+
+
 def h_roll(cx, T, pa, lo, hi):
     lib.sym_env(cx, *MODS)
     a = mk_corr(cx, 'a', T, 1, pa)
@@ -352,7 +381,7 @@ def h_repr(cx, T, pa, kind):
     unchanged(cx, a, sa, 'repr')
 
 
-HARNESSES = dict(arith=h_arith, func=h_func, roll=h_roll, thin=h_thin, sym=h_sym, matrix=h_matrix, hankel=h_hankel, repr=h_repr)
+HARNESSES = dict(arith=h_arith, func=h_func, func_nan=h_func_nan, roll=h_roll, thin=h_thin, sym=h_sym, matrix=h_matrix, hankel=h_hankel, repr=h_repr)
 
 
 def _patterns(T, tier, seed, k=4):
@@ -398,6 +427,9 @@ def jobs(tier, seed):
         add('func', T=T, N=1, pa=pa, funcs=UNOPS[:10] + ['pow_obs'])
         add('func', T=T, N=1, pa=pa, funcs=UNOPS[10:])
     add('func', T=3, N=2, pa=(True, False, True), funcs=['neg', 'abs', 'pow2', 'exp', 'sin', 'log'])
+    J.append(dict(harness='func_nan', params=dict(T=2, N=1, pa=(True, True), funcs=['sqrt', 'arccosh', 'arctanh', 'pow_half']), opts=dict(nan_domain=True)))
+    J.append(dict(harness='func_nan', params=dict(T=2, N=2, pa=(True, False), funcs=['arcsin']), opts=dict(nan_domain=True)))
+    J.append(dict(harness='func_nan', params=dict(T=2, N=2, pa=(False, True), funcs=['log']), opts=dict(nan_domain=True)))
     for Tn in (4, 5):
         for pa in _patterns(Tn, tier, seed, 2)[:5]:
             add('roll', T=Tn, pa=pa, lo=-Tn - 1, hi=Tn + 1)
